@@ -180,11 +180,24 @@ def publish_rules(ctx):
     ok = False
     if eqd and eqd[0]['true'] is not None:
         # on the equal side the result is an empty vec: no VersionFreshness aggregate is built in blocks reachable only from it
-        only_true = fm.reach_avoiding([eqd[0]['true']], avoid_blocks=[]) - fm.reach_avoiding([eqd[0]['false']], avoid_blocks=[])
-        built = [pos for pos, s in fm.stmts() if pos[0] in only_true and s.get('k') == 'assign' and s['r']['k'] == 'agg' and s['r'].get('adt') == 'VersionFreshness']
+        # (unconditionally: a further condition on the equal side, after which the stale/fresh pair is still produced, is
+        # a weakened skip — seeded change C01-r1-b)
+        from_true = fm.reach_avoiding([eqd[0]['true']], avoid_blocks=[])
+        built = [pos for pos, s in fm.stmts() if pos[0] in from_true and s.get('k') == 'assign' and s['r']['k'] == 'agg' and s['r'].get('adt') == 'VersionFreshness']
         ok = not built
     ctx.ob('C01.P.skip_unchanged', 'RF-GUARD', ok, fm.path, '%s:%s' % (fm.file, eqd[0]['line'] if eqd else fm.line),
            're-submitting the stored value produces no tree element' if ok else 'no decision `stored value == submitted value` that skips the label')
+    # conversely: on the not-equal side every path to the closure's return builds the stale/fresh pair
+    ok = False
+    if eqd and eqd[0]['false'] is not None:
+        bb = {pos[0] for pos, s in fm.stmts() if s.get('k') == 'assign' and s['r']['k'] == 'agg' and s['r'].get('adt') == 'VersionFreshness'
+              and s['r'].get('variant') == 'Stale'}
+        r2 = fm.reach_avoiding([eqd[0]['false']], avoid_blocks=list(bb))
+        ok = bool(bb) and eqd[0]['false'] not in bb and not any(fm.blocks[x]['t']['k'] == 'ret' for x in r2)
+        ok = ok or (eqd[0]['false'] in bb)
+    ctx.ob('C01.P.changed_not_skipped', 'RF-GUARD', ok, fm.path, '%s:%s' % (fm.file, eqd[0]['line'] if eqd else fm.line),
+           'a value that differs from the stored one always yields the Stale(v) element (no other way to skip)' if ok else
+           'the closure can return without building the Stale(v)/Fresh(v+1) pair although the submitted value differs from the stored one')
     r = result_expr(fm)
     tuples = [x for x in walk(r) if x[0] == 'tuple' and len(x[1]) == 4 and x[1][1][0] == 'agg' and x[1][1][1] == 'VersionFreshness']
     kinds = set()
@@ -271,12 +284,38 @@ def rehash_rules(ctx):
         if s.get('k') == 'assign' and len(s['p']) > 1:
             fld = [el.get('f') for el in s['p'][1:] if isinstance(el, dict)]
             if fld and fld[-1] in ('last_epoch', 'min_descendant_epoch') and s['p'][0] != 0:
-                exprs.append((fld[-1], sc_b._expr_rvalue(s['r'], pos, 0)))
-    le = [e for f, e in exprs if f == 'last_epoch']
-    me = [e for f, e in exprs if f == 'min_descendant_epoch']
-    ok1 = bool(le) and all(e[0] == 'call' and call_is(e, 'max') and {access_path(a) for a in e[3]} == {'self.last_epoch', 'child_node.last_epoch'} for e in le)
-    ok2 = bool(me) and any(e[0] == 'call' and call_is(e, 'min') and {access_path(a) for a in e[3]} == {'self.min_descendant_epoch', 'child_node.min_descendant_epoch'} for e in me) \
-        and any(access_path(e) == 'child_node.min_descendant_epoch' for e in me)
+                exprs.append((fld[-1], sc_b._expr_rvalue(s['r'], pos, 0), pos))
+    le = [e for f, e, _ in exprs if f == 'last_epoch']
+    me = [e for f, e, _ in exprs if f == 'min_descendant_epoch']
+
+    def extremum(field, fn):
+        """every assignment to self.<field> is fn(self.f, child.f), or `self.f = child.f` on the side of a
+        comparison on which child.f is the extremum (`if child.f > self.f { self.f = child.f }` for max),
+        or — min only — on the `self.f == 0` (unset) side"""
+        own, ch = 'self.' + field, 'child_node.' + field
+        seen_ext = seen_unset = False
+        for f, e, pos in exprs:
+            if f != field:
+                continue
+            if e[0] == 'call' and call_is(e, fn) and {access_path(a) for a in e[3]} == {own, ch}:
+                seen_ext = True
+                continue
+            if access_path(e) != ch:
+                return False, False
+            a, b2 = (own, ch) if fn == 'max' else (ch, own)   # a < b  =>  take the child's value
+            cmpd = decisions(sc_b, lambda fc: fc[0] == 'rel' and fc[1] in ('lt', 'le') and access_path(fc[2]) == a and access_path(fc[3]) == b2)
+            unset = decisions(sc_b, lambda fc: fc[0] == 'rel' and fc[1] == 'eq' and any(
+                access_path(x) == own and is_const(y, 0) for x, y in ((fc[2], fc[3]), (fc[3], fc[2]))))
+            if any(d['true'] is not None and edge_dominates(sc_b, (d['block'], d['true']), pos[0]) for d in cmpd):
+                seen_ext = True
+            elif fn == 'min' and any(d['true'] is not None and edge_dominates(sc_b, (d['block'], d['true']), pos[0]) for d in unset):
+                seen_unset = True
+            else:
+                return False, False
+        return seen_ext, seen_unset
+    ok1 = extremum('last_epoch', 'max')[0]
+    m_ext, m_unset = extremum('min_descendant_epoch', 'min')
+    ok2 = m_ext and m_unset
     ctx.ob('C01.R.epoch_bookkeeping', 'RF-GUARD', ok1 and ok2, sc_b.path, '%s:%s' % (sc_b.file, sc_b.line),
            'set_child: last_epoch = max(own, child), min_descendant_epoch = min(own, child) (child\'s when unset)' if ok1 and ok2 else
            'set_child epoch bookkeeping changed: last_epoch <- %s ; min_descendant_epoch <- %s' % ([show(e)[:60] for e in le], [show(e)[:60] for e in me]),
